@@ -264,6 +264,7 @@ func checkC18(p *Program, r *Report) {
 				continue
 			}
 			hasArgs, hasCore := false, false
+			argsSometimes := false
 			// the environment value stored into the global, and everything that denotes the same object
 			same := func(v ssa.Value) bool { return sameEnvObject(v, envG, fn, 0) }
 			for _, b := range fn.Blocks {
@@ -279,6 +280,12 @@ func checkC18(p *Program, r *Report) {
 					if isFuncNamed(o, modPath+"/env", "Env", "Define") && len(c.Call.Args) == 3 && same(c.Call.Args[0]) {
 						if k, ok := c.Call.Args[1].(*ssa.Const); ok && k.Value != nil && k.Value.ExactString() == "\"args\"" {
 							hasArgs = true
+							// ... on every path: the script variable exists also when there are no arguments
+							for _, rb := range fn.Blocks {
+								if ret, ok := rb.Instrs[len(rb.Instrs)-1].(*ssa.Return); ok && !instrDominates(c, ret) {
+									argsSometimes = true
+								}
+							}
 						}
 					}
 					if o.Pkg().Path() == modPath+"/core" && o.Name() == "Import" && len(c.Call.Args) == 1 && same(c.Call.Args[0]) {
@@ -289,6 +296,8 @@ func checkC18(p *Program, r *Report) {
 			switch {
 			case !hasArgs:
 				why = "args is not defined in the very environment the script runs in"
+			case argsSometimes:
+				why = "args is defined on some paths only (not when there are no script arguments): a script that reads args then fails with an undefined symbol, while the library with an equally prepared environment runs it"
 			case !hasCore:
 				why = "core.Import is not applied to the very environment the script runs in (builtins that close over their environment, such as defined and load, would act on another scope)"
 			default:
